@@ -51,7 +51,8 @@ func DefaultSchema() []SchemaPath {
 	return []SchemaPath{
 		s("/a/b"), s("/a/c"), s("/a/e/d"), s("/ab"),
 		k("/l[k=*]/k", "k"), s("/l[k=*]/x"), s("/l[k=*]/y"),
-		k("/m[k=*][j=*]/k", "k"), k("/m[k=*][j=*]/j", "j"), s("/m[k=*][j=*]/x"),
+		// textual paths carry list keys in alphabetical order of the key names
+		k("/m[j=*][k=*]/j", "j"), k("/m[j=*][k=*]/k", "k"), s("/m[j=*][k=*]/x"),
 	}
 }
 
@@ -233,8 +234,8 @@ func flattenObj(prefix string, m map[string]interface{}, out map[string]string) 
 						}
 					}
 				}
-				// key order as in the schema: k before j
-				sort.Slice(keys, func(i, j int) bool { return keys[i] > keys[j] })
+				// textual paths carry list keys in alphabetical order of the key names
+				sort.Strings(keys)
 				ep := prefix + "/" + name
 				for _, kn := range keys {
 					ep += "[" + kn + "=" + fmt.Sprint(em[kn]) + "]"
